@@ -10,7 +10,7 @@ from common.framework import Failure, ImplError, Stream
 
 ID = 'C14'
 LEAN_MODULES = ['Proofs.C14']
-REQUIRED = ['C14.cycleStat_spec', 'C14.cycle_samples_exact', 'C14.getCycleStat_cycles', 'C14.project_spec', 'C14.getCycleStat_samples', 'C14.linInterp_affine', 'C14.alignCycle_affine', 'C14.phaseAlign_affine', 'C14.digitize_spec', 'C14.binByPhase_spec']
+REQUIRED = ['C14.cycleStat_spec', 'C14.cycle_samples_exact', 'C14.getCycleStat_cycles', 'C14.project_spec', 'C14.getCycleStat_samples', 'C14.linInterp_affine', 'C14.alignCycle_affine', 'C14.phaseAlign_affine', 'C14.digitize_spec', 'C14.binByPhase_spec', 'C14.binByPhaseW_spec']
 TRUSTED = ['bin centres / edges are taken from the real emd.spectra.define_hist_bins on the same run and handed to the model as data',
            'default cycles of phase_align are taken from the real get_cycle_vector(ip, return_good=False) (property C12) and handed to the model',
            'float results are compared with the exact rational model within 1e-9*max(1, |input|_inf); non-finite floats (NaN, inf) are one class']
@@ -321,12 +321,13 @@ SMOOTH = {
 }
 
 
-def build_phase(rng, lengths, gaps, wrap_friendly):
-    """Strictly increasing jittered phase on every cycle; optional unlabelled stretches."""
+def build_phase(rng, lengths, gaps):
+    """Strictly increasing jittered phase on every cycle (some cycles start late / end early, i.e. are
+    not 'good' cycles, but every boundary is still a phase wrap); optional unlabelled stretches."""
     ip, cv = [], []
     for k, n in enumerate(lengths):
-        lo = rng.uniform(0.0, 0.12) if wrap_friendly else rng.uniform(0.0, 0.6)
-        hi = rng.uniform(TWO_PI - 0.12, TWO_PI - 1e-3) if wrap_friendly else rng.uniform(TWO_PI - 0.8, TWO_PI - 1e-3)
+        lo = rng.uniform(0.0, 0.12) if rng.random() < 0.7 else rng.uniform(0.3, 0.6)
+        hi = rng.uniform(TWO_PI - 0.12, TWO_PI - 1e-3) if rng.random() < 0.7 else rng.uniform(TWO_PI - 0.8, TWO_PI - 0.4)
         steps = [rng.uniform(0.5, 1.5) for _ in range(n - 1)]
         tot = sum(steps) or 1.0
         acc, ph = 0.0, [lo]
@@ -350,7 +351,7 @@ def quantity(case, ip):
     return [g(p) for p in ip]
 
 
-def run_align(ip, x, cv, npoints):
+def run_align(ip, x, cv, npoints, kind='linear'):
     import emd
     a = np.array(ip, dtype=float)
     b = np.array(x, dtype=float)
@@ -358,10 +359,10 @@ def run_align(ip, x, cv, npoints):
     b.setflags(write=False)
     if cv is None:
         used = np.asarray(emd.cycles.get_cycle_vector(a, return_good=False)).reshape(-1)
-        pa, bins = emd.cycles.phase_align(a, b, npoints=npoints)
+        pa, bins = emd.cycles.phase_align(a, b, npoints=npoints, interp_kind=kind)
     else:
         used = np.array(cv, dtype=int)
-        pa, bins = emd.cycles.phase_align(a, b, cycles=used, npoints=npoints)
+        pa, bins = emd.cycles.phase_align(a, b, cycles=used, npoints=npoints, interp_kind=kind)
     pa = np.asarray(pa, dtype=float)
     return {'cv': [int(v) for v in used], 'bins': [float(v) for v in bins], 'shape': list(pa.shape),
             'cols': [fl(pa[:, k]) for k in range(pa.shape[1])]}
@@ -416,29 +417,32 @@ class Align(Stream):
                 q = {'kind': 'affine', 'a': rng.randint(-40, 40) / 8.0, 'b': rng.randint(-40, 40) / 4.0}
             else:
                 q = {'kind': 'smooth', 'name': rng.choice(sorted(SMOOTH))}
+            kind = 'linear' if (fam == 'short' or rng.random() < 0.6) else rng.choice(['slinear', 'quadratic', 'cubic'])
             yield {'lengths': lengths, 'seed': rng.getrandbits(32), 'gaps': cycles == 'vector' and rng.random() < 0.6,
                    'cycles': cycles, 'npoints': rng.choice([2, 3, 4, 8, 24, 48, 64]) if rng.random() < 0.7 else rng.randint(2, 64),
-                   'quantity': q}
+                   'quantity': q, 'kind': kind}
 
     def _data(self, case):
         import random
         r = random.Random(case['seed'])
-        ip, cv = build_phase(r, case['lengths'], case['gaps'], case['cycles'] == 'default')
+        ip, cv = build_phase(r, case['lengths'], case['gaps'])
         return ip, quantity(case, ip), cv
 
     def impl(self, case):
         ip, x, cv = self._data(case)
-        return run_align(ip, x, None if case['cycles'] == 'default' else cv, case['npoints'])
+        return run_align(ip, x, None if case['cycles'] == 'default' else cv, case['npoints'], case.get('kind', 'linear'))
 
     def ops(self, case, out):
-        if isinstance(out, ImplError):
-            return []
+        if isinstance(out, ImplError) or case.get('kind', 'linear') != 'linear':
+            return []          # spline kinds are library numerics: instance check only
         ip, x, cv = self._data(case)
         return [proto.op('PALIGN', {}, [ip, x, out['cv'], out['bins']])]
 
     def compare(self, case, out, results):
         if isinstance(out, ImplError):
             return 'implementation raised %s: %s' % (out['error'], out['msg'])
+        if case.get('kind', 'linear') != 'linear':
+            return None
         r = results[0]
         if not r.ok:
             return 'model answered %s' % r.raw[:80]
@@ -467,6 +471,9 @@ class Align(Stream):
         if case['cycles'] == 'vector' and used != cv:
             return [Failure('align:cycles-argument-ignored', '')]
         bins = out['bins']
+        npts = case['npoints']
+        if len(bins) != npts or any(abs(t - (j + 0.5) * TWO_PI / npts) > 1e-12 for j, t in enumerate(bins)):
+            return [Failure('align:phase-grid-not-bin-centres', 'npoints=%d grid=%s' % (npts, bins[:6]))]
         q = case['quantity']
         fs = []
         for k in range(K):
@@ -495,7 +502,7 @@ class Align(Stream):
         return fs
 
     def tags(self, case, out):
-        t = ['cycles=' + case['cycles'], 'quantity=' + (case['quantity'].get('name') or 'affine'),
+        t = ['cycles=' + case['cycles'], 'quantity=' + (case['quantity'].get('name') or 'affine'), 'kind=' + case.get('kind', 'linear'),
              'npoints=%s' % ('2-4' if case['npoints'] <= 4 else '5-32' if case['npoints'] <= 32 else '33-64')]
         L = case['lengths']
         t.append('len<8' if min(L) < 8 else 'len>=150' if max(L) >= 150 else 'len 8-149')
@@ -521,18 +528,22 @@ class Align(Stream):
 
 # ----------------------------------------------------------------------------- bin_by_phase
 
-def run_bin(ip, x, nbins, edges):
+def run_bin(ip, x, nbins, edges, weights=None):
     import emd
     a = np.array(ip, dtype=float)
     b = np.array(x, dtype=float)
     a.setflags(write=False)
     b.setflags(write=False)
+    kw = {}
+    if weights is not None:
+        kw['weights'] = np.array(weights, dtype=float)
+        kw['weights'].setflags(write=False)
     if edges is None:
-        avg, var, centres = emd.cycles.bin_by_phase(a, b, nbins=nbins)
+        avg, var, centres = emd.cycles.bin_by_phase(a, b, nbins=nbins, **kw)
         e, _ = emd.spectra.define_hist_bins(0, 2 * np.pi, nbins)
     else:
         e = np.array(edges, dtype=float)
-        avg, var, centres = emd.cycles.bin_by_phase(a, b, bin_edges=e)
+        avg, var, centres = emd.cycles.bin_by_phase(a, b, bin_edges=e, **kw)
     avg, var = np.asarray(avg, dtype=float), np.asarray(var, dtype=float)
     if avg.ndim == 1:
         avg, var = avg[:, None], var[:, None]
@@ -552,6 +563,8 @@ class Binning(Stream):
             {'ip': [0.0, TWO_PI, np.pi, np.pi / 2], 'x': [[1.0, 2.0, 3.0, 4.0]], 'nbins': 2, 'edges': None},   # exact edge values
             {'ip': [0.5, 0.7, 2.5, 9.0], 'x': [[1.0, 3.0, 5.0, 7.0]], 'nbins': 3, 'edges': [0.0, 1.0, 3.0, 7.0]},
             {'ip': [0.5, 2.0, 4.0, 6.0], 'x': [[1.0, 2.0, 3.0, 4.0], [2.0, 0.0, -2.0, 8.0]], 'nbins': 4, 'edges': None},
+            {'ip': [0.5, 0.6, 4.0, 6.0, 6.1], 'x': [[1.0, 2.0, 3.0, 4.0, 8.0], [2.0, 0.0, -2.0, 8.0, 1.0]], 'nbins': 4, 'edges': None,
+             'weights': [1.0, 3.0, 2.0, 0.5, 1.5]},
         ]
 
     def generate(self, rng, tier):
@@ -575,18 +588,24 @@ class Binning(Stream):
                 else:
                     ip.append(rng.uniform(0, TWO_PI))
             ncol = rng.choice([1, 1, 1, 2])
-            x = [[float(rng.randint(-20, 20)) for _ in range(n)] for _ in range(ncol)]
-            yield {'ip': ip, 'x': x, 'nbins': nbins, 'edges': edges}
+            case = {'ip': ip, 'nbins': nbins, 'edges': edges}
+            if rng.random() < 0.25:          # weighted branch (needs 2-d observations)
+                ncol = rng.choice([1, 2, 3])
+                case['weights'] = [rng.randint(1, 16) / 4.0 for _ in range(n)]
+            case['x'] = [[float(rng.randint(-20, 20)) for _ in range(n)] for _ in range(ncol)]
+            yield case
 
     def impl(self, case):
         x = np.array(case['x'], dtype=float).T
-        if x.shape[1] == 1:
+        if x.shape[1] == 1 and case.get('weights') is None:
             x = x[:, 0]
-        return run_bin(case['ip'], x, case['nbins'], case['edges'])
+        return run_bin(case['ip'], x, case['nbins'], case['edges'], case.get('weights'))
 
     def ops(self, case, out):
         if isinstance(out, ImplError):
             return []
+        if case.get('weights') is not None:
+            return [proto.op('BINPHW', {}, [out['edges'], case['ip'], case['weights'], col]) for col in case['x']]
         return [proto.op('BINPH', {}, [out['edges'], case['ip'], col]) for col in case['x']]
 
     def compare(self, case, out, results):
@@ -600,8 +619,9 @@ class Binning(Stream):
             if not r.ok:
                 return 'model answered %s' % r.raw[:80]
             sc = scale_of(col)
-            d = vec_diff(out['avg'][c], r.vecs[0], sc, 'avg column %d' % c) or \
-                vec_diff(out['var'][c], r.vecs[1], sc * sc, 'var column %d' % c)
+            d = vec_diff(out['avg'][c], r.vecs[0], sc, 'avg column %d' % c)
+            if case.get('weights') is None:      # the weighted variance is not part of the property (see report)
+                d = d or vec_diff(out['var'][c], r.vecs[1], sc * sc, 'var column %d' % c)
             if d:
                 return d
         return None
@@ -620,10 +640,11 @@ class Binning(Stream):
                 fs.setdefault('bin:wrong-length', Failure('bin:wrong-length', '%d entries for %d bins' % (len(avg), nb)))
                 continue
             for b in range(nb):
-                members = [v for p, v in zip(case['ip'], col) if e[b] <= p < e[b + 1]]
+                w = case.get('weights') or [1.0] * len(col)
+                members = [(v, wi) for p, v, wi in zip(case['ip'], col, w) if e[b] <= p < e[b + 1]]
                 if not members:
                     continue
-                want = sum(members) / len(members)
+                want = sum(v * wi for v, wi in members) / sum(wi for v, wi in members)
                 if avg[b] is None or abs(avg[b] - want) > 1e-9 * max(1.0, max(abs(v) for v in col)):
                     kind = ('bin:last-bin-not-filled' if (b == nb - 1 and avg[b] is None) else
                             'bin:bin-with-samples-is-empty' if avg[b] is None else 'bin:not-the-mean-of-its-samples')
@@ -633,6 +654,7 @@ class Binning(Stream):
 
     def tags(self, case, out):
         t = ['edges=' + ('custom' if case['edges'] else 'default'), 'cols=%d' % len(case['x']),
+             'weighted' if case.get('weights') is not None else 'unweighted',
              'nbins=%s' % ('2-4' if case['nbins'] <= 4 else '5-32' if case['nbins'] <= 32 else '33-64')]
         if not isinstance(out, ImplError):
             nb = len(out['edges']) - 1
@@ -652,12 +674,15 @@ class Binning(Stream):
     def shrink(self, case):
         ip, x = case['ip'], case['x']
         n = len(ip)
+        w = case.get('weights')
         if len(x) > 1:
             yield dict(case, x=x[:1])
+        if w is not None:
+            yield {k: v for k, v in case.items() if k != 'weights'}
         for cut in (n // 2, n // 4, 1):
             if 0 < cut < n:
-                yield dict(case, ip=ip[cut:], x=[c[cut:] for c in x])
-                yield dict(case, ip=ip[:n - cut], x=[c[:n - cut] for c in x])
+                yield dict(case, ip=ip[cut:], x=[c[cut:] for c in x], **({'weights': w[cut:]} if w is not None else {}))
+                yield dict(case, ip=ip[:n - cut], x=[c[:n - cut] for c in x], **({'weights': w[:n - cut]} if w is not None else {}))
         if case['edges'] is None and case['nbins'] > 2:
             yield dict(case, nbins=max(2, case['nbins'] // 2))
 
